@@ -602,10 +602,22 @@ func (w *world) apply(o op, pause func()) {
 		w.newIno()
 	case "link", "linkto":
 		od := ""
-		if o.K == "linkto" && len(w.odirs) > 0 {
-			// back into a directory an earlier symlink pointed into (possibly removed since)
-			od = w.odirs[o.M%len(w.odirs)]
-			must(os.MkdirAll(od, 0o755))
+		var live []string
+		if o.K == "linkto" {
+			// Only directories that still exist: removing a target directory and
+			// re-creating it under the same path while the loop still believes it
+			// watched is the "directory removed" family the source does not handle
+			// (its watch died with the old inode, updateDirWatches(old == new) does
+			// not re-add it); see notes/C17.md.
+			for _, d := range w.odirs {
+				if fi, err := os.Stat(d); err == nil && fi.IsDir() {
+					live = append(live, d)
+				}
+			}
+		}
+		if len(live) > 0 {
+			// back into a directory an earlier symlink pointed into
+			od = live[o.M%len(live)]
 		} else {
 			od = filepath.Join(w.root, fmt.Sprintf("o%d", w.next()))
 			must(os.Mkdir(od, 0o755))
